@@ -14,7 +14,19 @@ TAGS = {'mp': STR, 'NM': INT, 'XA': STR, 'RR': STR, 'NH': INT, 'SM': STR, 'DS': 
 
 def the_read(mapped):
     def mk(eng, name):
-        return stubs.make_read(eng, name, tags=TAGS, mapped=mapped, closed=True)
+        r = stubs.make_read(eng, name, tags=TAGS, mapped=mapped, closed=True)
+        if mapped:
+            # the lengths pysam derives from the CIGAR: matched m >= 1, inserted, deleted and skipped bases; the letters I / D / N
+            # occur in the CIGAR string exactly when the corresponding total is positive (P, = and X are not modelled)
+            m, ins, dele, skip = (named(INT, '%s.cigar_%s' % (name, k)) for k in ('matched', 'inserted', 'deleted', 'skipped'))
+            cig = r.attrs['cigarstring'].z
+            eng.assume(z3.And(m.z >= 1, ins.z >= 0, dele.z >= 0, skip.z >= 0,
+                              r.attrs['reference_end'].z - r.attrs['reference_start'].z == m.z + dele.z + skip.z,
+                              (ins.z > 0) == z3.Contains(cig, z3.StringVal('I')), (dele.z > 0) == z3.Contains(cig, z3.StringVal('D')),
+                              (skip.z > 0) == z3.Contains(cig, z3.StringVal('N'))))
+            r.attrs.update({'cigar_matched': m, 'cigar_inserted': ins, 'cigar_deleted': dele, 'cigar_skipped': skip,
+                            'reference_length': Sym(m.z + dele.z + skip.z, INT), 'query_alignment_length': Sym(m.z + ins.z, INT)})
+        return r
     return mk
 
 
@@ -113,18 +125,15 @@ def filter_replay(inputs, clause):
         ops = []
         span = max(1, int(w['reference_end']) - int(w['reference_start']))
         # realise the letters the filters look at (I, D, S) around a match block of the model's reference span
-        if 'S' in cig:
-            ops.append((4, 2))
-        ops.append((0, min(span, 30)) if span <= 30 else (0, 1))
-        if span > 30:
-            ops += [(3, span - 2), (0, 1)]
-        if 'I' in cig:
-            ops.insert(len(ops) - 1, (1, 1)) if len(ops) > 1 else ops.append((1, 1))
-            ops.append((0, 1)) if ops[-1][0] == 1 else None
-        if 'D' in cig and span >= 3 and span <= 30:
-            ops = ([(4, 2)] if 'S' in cig else []) + [(0, 1), (2, span - 2), (0, 1)] + ([(1, 1), (0, 1)] if 'I' in cig else [])
-            if 'I' in cig:
-                return {'status': 'no-input', 'note': 'cigar with I and D and exact span not realised'}
+        ra = inputs['read'].get('attrs', {})
+        if ra.get('cigar_matched') is None:
+            return {'status': 'no-input', 'note': 'model without CIGAR totals'}
+        # the model's own totals: soft clip, matched, inserted, deleted, skipped bases (pysam derives the lengths from these)
+        mm, ii, dd, nn = (int(ra.get(k) or 0) for k in ('cigar_matched', 'cigar_inserted', 'cigar_deleted', 'cigar_skipped'))
+        if mm + ii > 200000:
+            return {'status': 'no-input', 'note': 'read of %d bases not realised' % (mm + ii)}
+        ops = ([(4, 2)] if 'S' in cig else []) + [(0, mm)] + ([(1, ii)] if ii else []) + ([(2, dd)] if dd else []) + \
+            ([(3, nn)] if nn else [])
         w['cigartuples'] = ops
     # an empty string cannot be stored as a tag value: realise it by an equivalent non-empty one
     w['tags'] = {k: (int(v) if k in ('NM', 'NH', 'DS') else (str(v) or (';' if k == 'XA' else 'x'))) for k, v in w['tags'].items()}
